@@ -1,7 +1,7 @@
 (* C12 — lemmas about the model of Features/Transform.v and the regenerated tables. *)
 From Coq Require Import Ascii String.
 From Coq Require Import List NArith ZArith QArith Qreals Reals Bool Arith Lia Lra ZifyBool.
-From Outrank Require Import Features.Transform Gen.Presets Gen.TransformConstants Features.TransformTables.
+From Outrank Require Import Features.Transform Features.Transform3 Gen.Presets Gen.TransformConstants Features.TransformTables.
 Import ListNotations.
 Local Close Scope R_scope.
 Local Close Scope Q_scope.
@@ -965,3 +965,15 @@ Proof.
   - rewrite Rltb_false by lra. reflexivity.
   - rewrite Rltb_true by lra. reflexivity.
 Qed.
+
+Lemma parse_cell_code_spec : forall s, pres_eq (parse_cell_code s) (parse_cell3 s).
+Proof.
+  intros s. unfold parse_cell_code, parse_cell3. change strip_char with 34%N.
+  destruct (strip 34%N s) as [|c r].
+  - cbn. split; reflexivity.
+  - destruct (parse_py (c :: r)); cbn; auto. split; [apply Qeq_refl | reflexivity].
+Qed.
+
+(* every modelled preset is a key of the vault's registry (the other keys are not modelled) *)
+Lemma registry_subset : forallb (fun n => mem n vault_registry_keys) (names registry) = true.
+Proof. vm_compute. reflexivity. Qed.
